@@ -42,7 +42,8 @@ def sh_iv(x, n, scale, M):
     return D.interval(float(x), factorial(n) * scale, rel_ulps=8, mag=2 * M, tight=True)
 
 
-def shapley_trace(tid, n, v):
+def shapley_trace(tid, n, v, partner=None):
+    """partner: values of another game of the same size whose all-players computation is consumed in lock-step with this one."""
     scale = scale_of(v)
     M = max(1.0, max(abs(x) for x in v))
     t = {"tid": tid, "n": n, "kind": "shapley", "scale": scale, "v": D.exact_arr(v, scale), "up": [0] * 2 ** n, "w": [], "useperm": 1 if n <= 6 else 0,
@@ -50,7 +51,10 @@ def shapley_trace(tid, n, v):
          "en_after": [0, 0]}
     try:
         g = full_game(n, v)
-        allv = list(compute_shapley_value(g))
+        if partner is None:
+            allv = list(compute_shapley_value(g))
+        else:
+            allv = [a for a, _b in zip(compute_shapley_value(g), compute_shapley_value(full_game(n, partner)))]
         onev = [compute_shapley_value_for_player(i, g) for i in range(n)]
         t["sh_all"] = [sh_iv(x, n, scale, M) for x in allv]
         t["sh_one"] = [sh_iv(x, n, scale, M) for x in onev]
@@ -154,7 +158,8 @@ def main():
                     v = [v[c] + 3 * (c == s1) - 2 * (c == s2) for c in range(NC)]
                 if j % 7 == 6:
                     v = [x * 2.0 ** -30 for x in v]          # very small magnitude
-                traces.append(shapley_trace(tid, n, v))
+                partner = [0.0] + [float(rv()) for _ in range(NC - 1)] if j % 3 == 1 else None
+                traces.append(shapley_trace(tid, n, v, partner))
         else:
             if n <= a.unit_max_n:
                 for s in range(1, NC - 1):                # unit bound vectors (grand coalition known 0, empty 0)
